@@ -18,6 +18,59 @@ func init() {
 const lpp = "(*internal/ingest.LineProtocolParser)."
 
 func runC01(c *Ctx) {
+	c.Rule("C01.SUFFIX", "WHO: the row→column converters (ToFlatRecord, BatchToColumnar, rowsToColumnar) never name a tag-conflicting field's column by the bare concatenation name+`_value`; the name comes from a helper that extends the suffix in a loop while it is still a tag or another field — otherwise a point with tag a and fields a and a_value stores two fields in one column")
+	{
+		n := 0
+		for _, name := range []string{"internal/ingest.ToFlatRecord", "internal/ingest.BatchToColumnar", "(*internal/ingest.ArrowBuffer).rowsToColumnar"} {
+			fn := c.P.Func(name)
+			if fn == nil {
+				c.Unk("C01.SUFFIX", name+"|function", 0, "function not found")
+				continue
+			}
+			bare := 0
+			viaHelper := 0
+			for _, in := range instrs(fn, true) {
+				if bo, ok := in.(*ssa.BinOp); ok && bo.Op == token.ADD {
+					if sv, ok := constString(bo.Y); ok && sv == "_value" {
+						bare++
+					}
+				}
+				if call, ok := in.(ssa.CallInstruction); ok {
+					callee := call.Common().StaticCallee()
+					if callee == nil {
+						continue
+					}
+					pk := callee.Pkg
+					if o := callee.Origin(); o != nil {
+						pk = o.Pkg // an instantiation of a generic helper
+					}
+					if pk != fn.Pkg {
+						continue
+					}
+					hasSuffix, lookups, loop := false, 0, false
+					for _, in2 := range instrs(callee, false) {
+						if bo, ok := in2.(*ssa.BinOp); ok && bo.Op == token.ADD {
+							if sv, ok := constString(bo.Y); ok && sv == "_value" {
+								hasSuffix = true
+								if blockInCycle(bo.Block()) {
+									loop = true
+								}
+							}
+						}
+						if lk, ok := in2.(*ssa.Lookup); ok && lk.CommaOk {
+							lookups++
+						}
+					}
+					if hasSuffix && loop && lookups >= 2 {
+						viaHelper++
+					}
+				}
+			}
+			n++
+			c.Check(bare == 0 && viaHelper >= 1, "C01.SUFFIX", fn.Name()+"|conflict-column-name", fn.Pos(), fmt.Sprintf("%d conflict name(s), all from the collision-checking helper", viaHelper), fmt.Sprintf("%s names a tag-conflicting field's column by plain name+\"_value\" (%d site(s)): if the point also has a field of that very name, both fields land in one column — one value overwrites the other (line protocol) or the column gets two entries per row (row format)", fn.Name(), bare))
+		}
+		_ = n
+	}
 	validFillRule(c, "C01.MERGE")
 	p := c.P
 	c.Rule("C01.ESC", "WHO: in the line-protocol parser no byte/string search or split primitive (Index*, Split*, Cut, Fields, Contains*) is called with a delimiter from the escapable set {comma, space, equals, quote, backslash} (read from unescape's own switch) — separators are located only by the escape-aware scanners (splitOnDelimiterQuoted, indexUnescaped), whose delimiter comparison sits on the not-escaped branch of their backslash test")
